@@ -27,7 +27,7 @@ func init() {
 
 type c16Scenario struct {
 	Entry    string    `json:"entry"`   // GetBlob, GetBlobRange, GetManifest, ResolveBlob, ResolveManifest
-	Scripts  [2]string `json:"members"` // S, F, BS, BF
+	Scripts  [2]string `json:"members"` // S, F, BS, BF, Fc, Fd
 	Cancel   bool      `json:"canceller"`
 	CloseErr bool      `json:"close_error"`
 	Schedule []int32   `json:"schedule,omitempty"`
@@ -57,6 +57,7 @@ type c16State struct {
 	started         [2]bool
 	returned        [2]bool
 	succeeded       [2]bool
+	failErr         [2]error
 	readers         [2]*c16Reader
 	callerCancelled bool
 	problems        []string
@@ -85,6 +86,13 @@ func (st *c16State) member(ctx context.Context, i int) (ok bool) {
 		st.log(fmt.Sprintf("member%d.woken", i))
 	}
 	ok = strings.HasSuffix(script, "S")
+	st.failErr[i] = errC16Member
+	switch script {
+	case "Fc":
+		st.failErr[i] = context.Canceled // the member failed for reasons of its own (e.g. an upstream fetch it aborted)
+	case "Fd":
+		st.failErr[i] = context.DeadlineExceeded // e.g. the member's own HTTP client timeout
+	}
 	st.returned[i] = true
 	st.succeeded[i] = ok
 	st.log(fmt.Sprintf("member%d.return ok=%v", i, ok))
@@ -94,7 +102,7 @@ func (st *c16State) member(ctx context.Context, i int) (ok bool) {
 func (st *c16State) funcs(i int) *ociregistry.Funcs {
 	rd := func(ctx context.Context) (ociregistry.BlobReader, error) {
 		if !st.member(ctx, i) {
-			return nil, fmt.Errorf("member %d: %w", i, errC16Member)
+			return nil, fmt.Errorf("member %d: %w", i, st.failErr[i])
 		}
 		r := &c16Reader{member: i, st: st}
 		if st.sc.CloseErr {
@@ -105,7 +113,7 @@ func (st *c16State) funcs(i int) *ociregistry.Funcs {
 	}
 	ds := func(ctx context.Context) (ociregistry.Descriptor, error) {
 		if !st.member(ctx, i) {
-			return ociregistry.Descriptor{}, fmt.Errorf("member %d: %w", i, errC16Member)
+			return ociregistry.Descriptor{}, fmt.Errorf("member %d: %w", i, st.failErr[i])
 		}
 		return ociregistry.Descriptor{Size: int64(100 + i)}, nil
 	}
@@ -247,10 +255,15 @@ func (st *c16State) verdict(res vsched.Result) []string {
 
 func c16Scenarios(thorough bool) []c16Scenario {
 	var out []c16Scenario
-	scripts := []string{"S", "F", "BS", "BF"}
+	scripts := []string{"S", "F", "BS", "BF", "Fc", "Fd"}
+	own := func(s string) bool { return s == "Fc" || s == "Fd" }
 	for _, e := range []string{"GetBlob", "GetBlobRange", "GetManifest", "ResolveBlob", "ResolveManifest"} {
 		for _, a := range scripts {
 			for _, b := range scripts {
+				// failures carrying the member's own context error: paired with S, F and BS only
+				if own(a) && (own(b) || b == "BF") || own(b) && (own(a) || a == "BF") {
+					continue
+				}
 				for _, c := range []bool{false, true} {
 					sc := c16Scenario{Entry: e, Scripts: [2]string{a, b}, Cancel: c}
 					if sc.blocking() && !c {
@@ -364,11 +377,11 @@ func c16Check(r *vcore.Run) vcore.Coverage {
 	r.Notes["preemption_bound"] = "unbounded (all interleavings)"
 	r.Assume = []string{
 		"scheduling points: go statements, channel send/receive/close, select (each ready case is a separate choice), explicit yields inside the fake members and the caller",
-		"members are harness-side fakes scripted {success, failure, block until own context is cancelled then succeed/fail}; the caller finally cancels its context only in scenarios with a blocking member",
+		"members are harness-side fakes scripted {success, failure, failure wrapping context.Canceled / DeadlineExceeded of the member's own making, block until own context is cancelled then succeed/fail}; the caller finally cancels its context only in scenarios with a blocking member",
 		"ociunify is instrumented at build time by the vrewrite overlay; /repo is not modified",
 	}
 	return vcore.Coverage{States: execs, Transitions: points, TracesImpl: execs, Evaluations: execs, Nontrivial: preempted, Exhaustive: complete,
-		Rule: fmt.Sprintf("non-trivial = complete schedules containing at least one preemption (a thread switched out while still enabled), measured; %d scenarios (5 entry points x 4x4 member scripts x canceller on/off x reader Close error on/off) x ALL schedules of caller, two sender goroutines and canceller (stateless DFS, no preemption bound); states = complete schedules executed, transitions = scheduling points executed", len(scs))}
+		Rule: fmt.Sprintf("non-trivial = complete schedules containing at least one preemption (a thread switched out while still enabled), measured; %d scenarios (5 entry points x 28 member script pairs x canceller on/off x reader Close error on/off) x ALL schedules of caller, two sender goroutines and canceller (stateless DFS, no preemption bound); states = complete schedules executed, transitions = scheduling points executed", len(scs))}
 }
 
 func c16Replay(r *vcore.Run, sub string, raw json.RawMessage) {
